@@ -8,6 +8,7 @@ package spynode
 
 import (
 	"fmt"
+	"strings"
 	"testing"
 
 	"github.com/tokenized/pkg/bitcoin"
@@ -151,6 +152,7 @@ func c04rRun(sc *C04RScenario) (res *txHistResult) {
 	}
 
 	for _, ev := range sc.Events {
+		sn.trace("event %s %v depth=%d extra=%d", ev.Op, ev.Txs, ev.Depth, ev.Extra)
 		switch ev.Op {
 		case "inv":
 			inv := wire.NewMsgInv()
@@ -167,6 +169,12 @@ func c04rRun(sc *C04RScenario) (res *txHistResult) {
 		case "tx":
 			for _, c := range ev.Txs {
 				sn.deliver(txs[c%len(txs)])
+			}
+		case "submit":
+			// the application hands the node a transaction of its own (again): safe from the start
+			for _, c := range ev.Txs {
+				_ = sn.node.HandleTx(sn.ctx, txs[c%len(txs)])
+				flags["local-submit"] = true
 			}
 		case "txstep":
 			doTxStep()
@@ -240,6 +248,30 @@ func c04rRun(sc *C04RScenario) (res *txHistResult) {
 	if sn.txThreadDead != "" {
 		res.add("C04/tx-thread-exit", "unconfirmed tx processing failed: "+sn.txThreadDead)
 	}
+	// C07's flag invariants over every notification of the history, per transaction
+	sawUnsafe := map[bitcoin.Hash32]bool{}
+	for k, e := range sn.h1.snapshot() {
+		if e.Kind != "tx" && e.Kind != "update" {
+			continue
+		}
+		i := idOf[e.TxID]
+		st := e.State
+		sn.trace("notification %d step %d: %s tx%d safe=%v unsafe=%v cancelled=%v depth=%d proof=%v", k, e.Step, e.Kind, i, st.Safe, st.UnSafe, st.Cancelled, st.UnconfirmedDepth, st.MerkleProof != nil)
+		if st.Safe && st.UnSafe {
+			res.add("C07/safe-and-unsafe", fmt.Sprintf("tx%d: notification %d (%s, step %d) has safe and unsafe both set", i, k, e.Kind, e.Step))
+		}
+		if st.Cancelled && !st.UnSafe {
+			res.add("C07/cancelled-not-unsafe", fmt.Sprintf("tx%d: notification %d (%s, step %d) is cancelled but not unsafe", i, k, e.Kind, e.Step))
+		}
+		if sawUnsafe[e.TxID] && st.Safe {
+			res.add("C07/safe-after-unsafe", fmt.Sprintf("tx%d was reported unsafe/cancelled and a later notification (%d, %s, step %d) says safe", i, k, e.Kind, e.Step))
+			flags["safe-after-unsafe"] = true
+		}
+		if st.UnSafe || st.Cancelled {
+			sawUnsafe[e.TxID] = true
+			flags["unsafe-reported"] = true
+		}
+	}
 	return res
 }
 
@@ -283,6 +315,9 @@ func TestC04Reorg(t *testing.T) {
 	runOne := func(sc *C04RScenario) (*nodeViolation, map[string]bool) {
 		res := c04rRun(sc)
 		for _, v := range res.violations {
+			if !strings.HasPrefix(v.key, "C04/") {
+				continue // the flag invariants of C07 are judged by TestC07Reorg
+			}
 			if verifkit.Known(v.key) {
 				rep.Exclude(v.key)
 				continue
@@ -330,4 +365,89 @@ func TestC04History(t *testing.T) {
 	txHistTest(t, "C04", "TestC04History", []string{"C04/"}, true,
 		func(f map[string]bool) bool { return f["relevant-tx-confirmed"] },
 		txHistRule+"; with clean restarts; oracle C04 after every processed block: each relevant tx of the block was notified in that step with a proof the independent verifier accepts against the header the node holds at that height, true index, depth zero; non-trivial = at least one relevant tx is in a processed block; distinct by scenario hash")
+}
+
+// TestC07Reorg judges C07's flag invariants over histories with reorganisations and transactions the
+// application submits itself (also a second time, after a reorganisation made them unconfirmed
+// again): no notification has safe and unsafe both set, cancelled implies unsafe, and nothing is
+// called safe after it was reported unsafe or cancelled.
+func genC07R(t *rapid.T) *C04RScenario {
+	sc := &C04RScenario{Txs: genTxSpecs(t, 7), Parse: rapid.Bool().Draw(t, "parse")}
+	n := len(sc.Txs)
+	some := func(max int) []int {
+		var out []int
+		for k, c := 0, rapid.IntRange(0, max).Draw(t, "cnt"); k < c; k++ {
+			out = append(out, rapid.IntRange(0, n-1).Draw(t, "tx"))
+		}
+		return out
+	}
+	nev := rapid.IntRange(4, 40).Draw(t, "nev")
+	for i := 0; i < nev; i++ {
+		ev := C04REvent{Op: rapid.SampledFrom([]string{"submit", "submit", "submit", "tx", "tx", "inv", "txstep", "txstep", "txstep", "deliver", "deliver", "deliver", "blockstep", "blockstep", "blockstep", "ping", "mine", "mine", "fork", "fork"}).Draw(t, "op")}
+		switch ev.Op {
+		case "inv", "tx", "submit":
+			ev.Txs = []int{rapid.IntRange(0, n-1).Draw(t, "tx")}
+		case "mine":
+			ev.Txs = some(4)
+		case "fork":
+			ev.Depth = rapid.IntRange(1, 3).Draw(t, "depth")
+			ev.Extra = rapid.IntRange(0, 2).Draw(t, "extra")
+			ev.Txs = some(6)
+		}
+		sc.Events = append(sc.Events, ev)
+	}
+	return sc
+}
+
+const c07rRule = "step-mode histories on a synced node: up to 7 generated transactions (conflicting, chained, relevant or not) submitted by the application (safe from the start; also again later), delivered or announced by the trusted peer, mined, orphaned by forks of depth 1-3 and re-included or not in the replacement blocks, with a generated interleaving of delivery, tx and block steps; oracle over every notification of the history: never safe and unsafe together, cancelled implies unsafe, no safe after unsafe/cancelled for the same tx; non-trivial = a fork happened and some tx was reported unsafe or cancelled; distinct by scenario hash"
+
+func TestC07Reorg(t *testing.T) {
+	rep := verifkit.NewReport("C07", "TestC07Reorg", c07rRule)
+	defer rep.Finish(t)
+	nt := func(f map[string]bool) bool { return f["fork"] && f["unsafe-reported"] }
+	runOne := func(sc *C04RScenario) (*nodeViolation, map[string]bool) {
+		res := c04rRun(sc)
+		for _, v := range res.violations {
+			if !strings.HasPrefix(v.key, "C07/") {
+				continue
+			}
+			if verifkit.Known(v.key) {
+				rep.Exclude(v.key)
+				continue
+			}
+			return v, res.flags
+		}
+		return nil, res.flags
+	}
+	replay := func(path string) {
+		var sc C04RScenario
+		if _, _, err := verifkit.LoadReplay(path, &sc); err != nil {
+			t.Fatalf("replay %s: %v", path, err)
+		}
+		v, f := runOne(&sc)
+		rep.Case(verifkit.Hash(sc), nt(f), "replay")
+		if v != nil {
+			rep.AddViolation(v.key, v.what, sc)
+			t.Errorf("replay %s: %s: %s", path, v.key, v.what)
+		}
+	}
+	if f := verifkit.ReplayFile("TestC07Reorg"); f != "" {
+		replay(f)
+		return
+	}
+	for _, f := range verifkit.RegressionFiles("TestC07Reorg") {
+		replay(f)
+	}
+	rapid.Check(t, func(rt *rapid.T) {
+		sc := genC07R(rt)
+		v, f := runOne(sc)
+		rep.Case(verifkit.Hash(sc), nt(f), flagList(f)...)
+		if nt(f) && rep.WantSample() {
+			rep.Sample(sc)
+		}
+		if v != nil {
+			rep.Fail(v.key, v.what, sc)
+			rt.Fatalf("%s: %s", v.key, v.what)
+		}
+	})
 }
